@@ -82,11 +82,11 @@ EXHIBIT = {
 # ---- replay graphs (as built).  (constants, driver test, max paths in quick or None, what) ----
 REPLAY = {
     "quick": {
-        "parse": (mk(ALLSRV, bad=("bad1",), maxlook=1, maxadv=2, deltas=(5, 20)), "TestReplayTcp", None),
-        "ttl": (mk(TTLK, maxlook=2, maxadv=2, deltas=(5, 6, 25)), "TestReplayTcp", None),
+        "parse": (mk(ALLSRV, bad=("bad1",), maxlook=1, maxadv=2, deltas=(5, 20)), "TestReplayTcp", 4000),
+        "ttl": (mk(TTLK, maxlook=2, maxadv=2, deltas=(5, 6, 25)), "TestReplayTcp", 5000),
         "lru": (mk(["A1", "Bfail", "Aba"], names=("n1", "n2"), cap=1, maxlook=3, maxadv=1, deltas=(6,)), "TestReplayTcp", None),
-        "conc": (mk(["A1", "B2", "Bfail", "Aba"], procs=("p1", "p2"), maxlook=2, maxadv=1, deltas=(6,), cancel=True), "TestReplayTcp", None),
-        "udp": (mk(UDPK, udp=True, maxlook=2, maxadv=0, **UDPT), "TestReplayUdp", 700),
+        "conc": (mk(["A1", "B2", "Bfail", "Aba"], procs=("p1", "p2"), maxlook=2, maxadv=1, deltas=(6,), cancel=True), "TestReplayTcp", 4000),
+        "udp": (mk(UDPK, udp=True, maxlook=2, maxadv=0, **UDPT), "TestReplayUdp", 600),
         "udponly": (mk(["A2", "B2", "Atc", "OA2", "OB2", "Fid", "Aq0", "Bfail"], udp=True, tcp=False, maxlook=2, maxadv=0, **UDPT), "TestReplayUdp", 150),
     },
     "thorough": {
